@@ -113,7 +113,38 @@ def gen_scenario(rng):
         else:
             ops.append("settle")
     ops.append(rng.choice(["settle", "sleep:31000", "sleep:31000"]))
+    if any(":s" in o for o in ops) and ops[-1] == "settle":
+        ops[-1] = "sleep:31000"      # a history does not end while a handler is still busy with its own work
     return "scn %s %d %d %d %s" % ("udp" if udp else "tcp", q, lim, ep, " ".join(ops)), (blocking >= 1 and nm > 2)
+
+
+def stale_family(rng=None):
+    """A replaced loop's handler returns while the current loop is inside a handler that has not asked for a replacement yet
+    (it is busy with its own work: `s<ms>`); only then that handler issues a nested request.  Every loop must have its own
+    `readingMessages` flag, otherwise the returning handler marks the *current* loop as reading, no replacement is made and
+    nobody reads the awaited answer.  Inner requests confirmable (`g`) and non-confirmable (`n`: one hand-over only), the first
+    handler returning because its answer came (then it goes on working for a moment) or because its call ran into its deadline,
+    both transports, several queue sizes; with three handlers either of the two replaced loops returns first."""
+    out = []
+    combos = [(tr, q, x, y) for tr in ("udp", "tcp") for q in (16, 1, 0) for x in ("n", "g") for y in ("n", "g")]
+    if rng is not None:
+        combos = [rng.choice(combos) for _ in range(6)]
+    for tr, q, x, y in combos:
+        a, b = (100, 500) if rng is None else (rng.choice([50, 100, 300]), rng.choice([500, 800, 2000]))
+        ans1 = "sep:1" if (tr == "udp" and x == "n") else "resp:1"
+        ans2 = "sep:2" if (tr == "udp" and y == "n") else "resp:2"
+        # the first handler gets its answer, works on for a ms; the second pauses b ms, then calls
+        out.append("scn %s %d 0 0 arrive:1:%s1+s%d %s arrive:2:s%d+%s2 sleep:%d sleep:%d %s sleep:31000 settle"
+                   % (tr, q, x, a, ans1, b, y, a + 50, b, ans2))
+        # the first handler's call runs into its deadline while the second pauses
+        out.append("scn %s %d 0 0 arrive:1:%s1 sleep:25000 arrive:2:s6000+%s2 sleep:7000 %s sleep:31000 settle" % (tr, q, x, y, ans2))
+        # three handlers: 1 and 2 wait in nested calls on replaced loops, 3 pauses on the current one; 2 (or 1) returns by its
+        # deadline first, then 3 calls
+        out.append("scn %s %d 0 0 arrive:1:%s1 sleep:3000 arrive:2:%s2 sleep:24000 arrive:3:s8000+%s3 sleep:9000 resp:3 sleep:31000 settle"
+                   % (tr, q, x, y, y))
+        out.append("scn %s %d 0 0 arrive:1:%s1 arrive:2:%s2 sleep:1000 resp:2 sleep:26000 arrive:3:s6000+%s3 sleep:7000 resp:3 sleep:31000 settle"
+                   % (tr, q, x, y, x))
+    return out
 
 
 FIXED = [
@@ -161,7 +192,9 @@ def corpus_lines():
 
 def gen_lines(ctx):
     rng = random.Random(ctx.seed * 7727 + 11)
-    L = [(l, True) for l in corpus_lines() + FIXED]
+    L = [(l, True) for l in corpus_lines() + FIXED + stale_family()]
+    for _ in range(40 if ctx.tier == "thorough" else 6):
+        L += [(l, True) for l in stale_family(rng)]
     for _ in range(10000 if ctx.tier == "thorough" else 1500):
         L.append(gen_scenario(rng))
     return L
